@@ -936,8 +936,9 @@ func parseTeletextRow(i *Item, d decoder, fs func() styler, row []byte) {
 			if color != li.InlineStyle.TeletextColor || doubleHeight != li.InlineStyle.TeletextDoubleHeight ||
 				doubleSize != li.InlineStyle.TeletextDoubleSize || doubleWidth != li.InlineStyle.TeletextDoubleWidth ||
 				(s != nil && s.hasChanged(li.InlineStyle)) {
-				// Line has started
-				if started {
+				// Line has started or the line item already has some text (the box has been closed): the new style
+				// only applies to what follows
+				if started || len(li.Text) > 0 {
 					// Append line item
 					appendTeletextLineItem(&l, li, s)
 
